@@ -418,6 +418,7 @@ fn reg_base() -> crate::registry::RegWorld {
     cached: BTreeSet::new(),
     has_locker: false,
     lock_manifests: vec![],
+    lock_remote: vec![],
   }
 }
 
